@@ -185,6 +185,7 @@ CHECKS["C12"] = dict(
         dict(pkg="server", name="C12_compare", bound="all pairs of 16-byte log positions", flags=["-witness", "1", "-timeout", "5000"], reach=["end"]),
         dict(pkg="server", name="C12_remote", bound="as C12_acceptor through the remote handlers commandHandleProposalCommand / commandHandleCommitCommand (protobuf through the executor's Marshal/Unmarshal stub, real protobuf natively)", flags=["-witness", "5", "-timeout", "5000"], reach=["end", "proposal-accepted", "commit-accepted"]),
         dict(pkg="server", name="C12_remote_single", bound="as C12_single through the remote handlers, every sequence of 4 deliveries", flags=["-witness", "200", "-timeout", "5000"], reach=["end"]),
+        dict(pkg="server", name="C12_vote", bound="ArbiterVoter.DoVote over 3 members (the candidate a data node): per member weight 0..2, arbiter flag, a log position with symbolic low position byte and low time byte, remote answers lost or not; ArbiterClient.Request answered in process (executor redirect), DoRequests' goroutines run inline", flags=[], reach=["end", "vote-failed"], native=False),
     ],
 )
 
@@ -203,6 +204,8 @@ CHECKS["C19"] = dict(
     assumptions=["transport replaced by an in-process IClient (no TCP, no RequestId matching under goroutines); sequential use with timeout 0"],
     harnesses=[
         dict(pkg="server", name="C19_primitives", bound="Lock (2 objects), RLock (depth 1..3, 2 objects), Semaphore(n) and MaxConcurrentFlow(n) with symbolic n in 1..4 and 6 acquires + 1 release, RWLock (writer/readers in both orders)", flags=["-witness", "1"], reach=["end"]),
+        dict(pkg="server", name="C19_event", bound="two client.Event objects on one key in default-set and default-clear mode: every program of 4 operations from {Set, Clear, IsSet, Wait(0), Wait(5)} by either object, against a boolean; waits that have to wait are tracked on the server and must be released by the next Set and not before", flags=["-witness", "500"], reach=["end"]),
+        dict(pkg="server", name="C19_priority", bound="a PriorityLock holder and 2..3 PriorityLock waiters with symbolic priorities 0..3: each release hands the key to the highest waiting priority, first come among equals", flags=["-witness", "1"], reach=["end"]),
     ],
 )
 
